@@ -194,15 +194,17 @@ impl Compiler {
 
     /// Compiles the given AST into executable Bytecode
     pub fn compile_ast(&mut self, ast: &BlockStmt) -> Result<Bytecode, Error> {
+        let globals_before = self.symbols.global_len();
         let result = self.compile_program(ast);
 
         // A program that failed to compile must not influence the next one:
-        // forget the code emitted so far and any function or loop we were in the middle of
+        // forget the code emitted so far, any function or loop we were in the middle of,
+        // and the names it declared (none of its declarations was ever executed)
         if result.is_err() {
             self.instructions.clear();
             self.last_instruction = None;
             self.loop_contexts.clear();
-            self.symbols.reset_to_global();
+            self.symbols.reset_to_global(globals_before);
         }
 
         result
